@@ -32,7 +32,13 @@ OPS = ["set", "set", "set", "getitem", "getitem", "get", "del", "contains", "len
 MOD = "vf.checks.c06"
 
 
+TEXT_KEYS = ['e\u0301', '\u00e9', 'A\u030a', '\u00c5', '\u212b', 'a', ' a', 'A', 'ss', '\u00df', '1', '\uff11', 'a/b', 'a/./b', 'a\n',
+             'a\r\n', ' ', '\ufeffa', '\ufb01', 'fi']       # canonically / compatibility / case / blank equivalent, but different strings
+
+
 def keyspace(kind, n):
+    if kind == "text":
+        return [TEXT_KEYS[i % len(TEXT_KEYS)] + ("" if i < len(TEXT_KEYS) else str(i)) for i in range(n)]
     if kind == "int":
         return list(range(n))
     if kind == "bigint":
@@ -77,7 +83,8 @@ def gen_case(rng, tier, index):
     for _ in range(nops):
         o = rng.choices(names, [w[n] for n in names])[0]
         ops.append([o, rng.randrange(nkeys), rng.randrange(1000), rng.randrange(1 << 16)])
-    return {"cap": cap, "nkeys": nkeys, "keys": ("int" if index % 4 != 1 else "bigint") if index % 4 else "mixed", "ops": ops}
+    return {"cap": cap, "nkeys": nkeys, "keys": "text" if index % 8 == 6 else ("int" if index % 4 != 1 else "bigint") if index % 4 else "mixed",
+            "ops": ops, "thread_hops": index % 5 == 2}
 
 
 def shrinkable(case):
@@ -127,9 +134,29 @@ class Model:
         del self.val[k]
 
 
+_HOP = [False]
+
+
 def _guard(desc, n, fn):
     try:
         with instr.budget(view_budget(n)):
+            if _HOP[0]:
+                # this operation is made by a short-lived thread of its own (strictly one after the other: a history spread over
+                # the threads of a pool of handlers)
+                import threading
+                box = []
+
+                def run():
+                    try:
+                        box.append(outcome(fn))
+                    except BaseException as e:      # noqa: B036 - re-raised in the caller
+                        box.append(e)
+                t = threading.Thread(target=run, name="vf:hop")
+                t.start()
+                t.join()
+                if isinstance(box[0], BaseException):
+                    raise box[0]
+                return box[0]
             return outcome(fn)
     except instr.StepBudgetExceeded:
         raise Violation("view-does-not-end",
@@ -319,6 +346,7 @@ def run_case(case, res):
     c = LRUCache(cap)
     m = Model(cap)
     for step, (op, ki, v, aux) in enumerate(case["ops"]):
+        _HOP[0] = bool(case.get("thread_hops")) and step % 2 == 1       # every second operation by a thread of its own
         k = common.fresh(keys[ki % len(keys)])     # an equal key, not the identical object
         n = len(m.order)
         desc = f"{op}({k!r})"
